@@ -25,7 +25,7 @@ ASSUMPTIONS = [
 
 
 def plan(tier):
-    return {"budget_s": 50 if tier == "quick" else 500, "profiles": ["R"], "min_evaluations": 20000}
+    return {"budget_s": 50 if tier == "quick" else 500, "profiles": ["R"], "min_evaluations": 2000}
 
 
 def bits(x):
